@@ -527,6 +527,8 @@ def suite_small(ctx: Ctx) -> SuiteResult:
                            "non-trivial = has a data user or trainer or nested agent; distinct by "
                            "(kinds, overflow, pending, smaller, marker class, tree)")
     for c in corpus_cases("C05"):
+        if "spec" not in c["case"]:
+            continue                    # witnesses of other suites (e.g. the PyTorch trainer part)
         vs, d, _ = run_case(c["case"], ctx.driver)
         res.evaluations += 1
         res.hit("corpus")
@@ -973,6 +975,12 @@ def replay(ctx: Ctx, payload: dict) -> SuiteResult:
         if d:
             res.disagreements.append(d)
         print("outcome:", info)
+    elif isinstance(case, dict) and "torch_trainer" in case:
+        import c05_torch
+        vs, d = c05_torch.run_case(case["torch_trainer"], ctx.driver)
+        res.violations = vs
+        if d:
+            res.disagreements.append(d)
     elif isinstance(case, dict) and "float_bits" in case:
         x = struct.unpack("<d", bytes.fromhex(case["float_bits"]))[0]
         print("float:", repr(x), "->", repr(float(str(x))))
@@ -991,15 +999,20 @@ if __name__ == "__main__":
         sys.stdout.flush()
         os._exit(0)
     setup_repo_path()
+    import c05_torch
     sys.exit(run_check(
-        "C05", lean_modules=["Pamiq.Props.C05"],
+        "C05", lean_modules=["Pamiq.Props.C05", "Pamiq.Props.C05Torch"],
         required_theorems=["Pamiq.Persist.load_save", "Pamiq.Persist.load_save_id",
                            "Pamiq.Persist.load_into_smaller", "Pamiq.Persist.clock_continues",
                            "Pamiq.Persist.clock_no_jump", "Pamiq.Persist.relaunch",
                            "Pamiq.Persist.reload_data", "Pamiq.Persist.reload_models",
                            "Pamiq.Persist.reload_trainers", "Pamiq.Persist.update_keeps_invariants",
-                           "Pamiq.Persist.trainable_preserved"],
-        suites=[suite_small, suite_random, suite_malformed, suite_bytes, suite_launch],
+                           "Pamiq.Persist.trainable_preserved",
+                           "Pamiq.TorchTrainer.load_save_torch", "Pamiq.TorchTrainer.setup_ok_after_reload",
+                           "Pamiq.TorchTrainer.other_kind_not_matched", "Pamiq.TorchTrainer.as_found_renames_state",
+                           "Pamiq.TorchTrainer.as_found_setup_fails"],
+        suites=[suite_small, suite_random, suite_malformed, suite_bytes, suite_launch,
+                c05_torch.suite_torch_trainer],
         search=search, replay=replay,
         assumptions=["byte formats are trusted: pickle and str(float)/float(str) round trips are "
                      "exact (exercised on random bit patterns by the byte-roundtrip suite, not proved)",
@@ -1012,7 +1025,10 @@ if __name__ == "__main__":
                      "the model performs all DataUser.update() calls before the file operations; the "
                      "code interleaves them (same result unless an update raises)",
                      "trainer markers are set through the private attribute (no public setter); "
-                     "is_trainable() is compared as the public observable"],
+                     "is_trainable() is compared as the public observable",
+                     "PyTorch is replaced by the stand-in harness/stubs/torch (torch.save/load = pickle, "
+                     "Optimizer/LRScheduler.state_dict round trip); optimizer / scheduler names contain no "
+                     "path separator"],
         trusted_extra=["scripted stand-ins for the stdlib time module and for `random` inside "
                        "random_replacement_buffer.py (harness/corr/c05.py, harness/persist_common.py)"],
         level_text="round-trip theorem load(save s) = s on all observables for every system, "
